@@ -442,4 +442,115 @@ example : pathOfEdges (List.replicate 17 Edge.fold) = none := by decide
 example : pathOfEdges (List.replicate 16 (Edge.raise 4 1)) = some 0xFFFFFFFFFFFFFFFF ∧
     (pathToEdges 0xFFFFFFFFFFFFFFFF).map List.length = some 16 := by decide
 
+/-! ## Abstraction ↔ u64 / i64, Bucket, street from the bucket code -/
+/-- the 44-bit hash field of `Abstraction::from((street, index))` -/
+def absMid (s i : Nat) : Nat := ((i % 4096 + s * 4096) * absMul % 2^64) / 2^12 % 2^44
+/-- the three bit fields as a sum: index (12 bits), hash (44 bits), street tag (8 bits) -/
+def absBitsFast (s i : Nat) : Nat := i % 4096 + absMid s i * 2^12 + s * 2^56
+
+theorem absL_and (x : Nat) : absL &&& x = x % 2^12 := by
+  have : absL = 2^12 - 1 := by decide
+  rw [Nat.and_comm, this, Nat.and_two_pow_sub_one_eq_mod]
+theorem absM_and (x : Nat) : absM &&& x = (x / 2^12 % 2^44) * 2^12 := by
+  have : absM = (2^44 - 1) <<< 12 := by decide
+  rw [Nat.and_comm, this, and_field]
+theorem absH_and (x : Nat) : absH &&& x = (x / 2^56 % 2^8) * 2^56 := by
+  have : absH = (2^8 - 1) <<< 56 := by decide
+  rw [Nat.and_comm, this, and_field]
+theorem absLbits_eq : absLbits = 12 := by decide
+theorem absHshift_eq : absHshift = 56 := by decide
+
+theorem absOf_bits (s i : Nat) (hs : s < 4) : (absOf s i).bits = absBitsFast s i := by
+  have hu : streetU8 s = s := by
+    have : s = 0 ∨ s = 1 ∨ s = 2 ∨ s = 3 := by omega
+    rcases this with rfl | rfl | rfl | rfl <;> decide
+  simp only [absOf, signature, hu, absLbits_eq, absHshift_eq, absL_and, absM_and, absH_and, u64]
+  have e1 : i % 2 ^ 64 % 2 ^ 12 = i % 4096 := by omega
+  have e2 : (s <<< 12) % 2^64 = s <<< 12 := by rw [Nat.shiftLeft_eq]; omega
+  have e3 : (s <<< 56) % 2^64 = s * 2^56 := by rw [Nat.shiftLeft_eq]; omega
+  rw [e1, e2, e3, or_shl_eq _ _ _ (by omega)]
+  unfold absBitsFast absMid
+  generalize ((i % 4096 + s * 2 ^ 12) * absMul % 2 ^ 64) = y
+  generalize hm : y / 2 ^ 12 % 2 ^ 44 = m
+  have hm' : m < 2^44 := by omega
+  have e4 : m * 2 ^ 12 / 2 ^ 12 % 2 ^ 44 * 2 ^ 12 = m * 2^12 := by omega
+  have e5 : s * 2 ^ 56 / 2 ^ 56 % 2 ^ 8 * 2 ^ 56 = s * 2^56 := by
+    rw [Nat.mul_div_cancel _ (Nat.pow_pos (by omega)), Nat.mod_eq_of_lt (by omega)]
+  rw [e4, e5]
+  have e6 : i % 4096 ||| m * 2 ^ 12 = i % 4096 + m * 2^12 := by
+    rw [← Nat.shiftLeft_eq, or_shl_eq _ _ _ (by omega), Nat.shiftLeft_eq]
+  rw [e6]
+  rw [← Nat.shiftLeft_eq s 56, or_shl_eq _ _ _ (by omega), Nat.shiftLeft_eq]
+
+theorem absMid_lt (s i : Nat) : absMid s i < 2^44 := by unfold absMid; omega
+theorem absBitsFast_lt (s i : Nat) (hs : s < 4) : absBitsFast s i < 2^64 := by
+  have := absMid_lt s i; unfold absBitsFast; omega
+
+/-- street tag, index and variant of a constructed abstraction -/
+theorem absOf_fields (s i : Nat) (hs : s < 4) :
+    absTag (absOf s i).bits = s ∧ absIndex (absOf s i) = i % 4096 ∧ (absOf s i).bits < 2^64 := by
+  have hm := absMid_lt s i
+  unfold absTag absIndex
+  rw [absOf_bits s i hs, absH_and, absL_and, absHshift_eq, Nat.shiftRight_eq_div_pow]
+  unfold absBitsFast
+  refine ⟨by omega, by omega, by omega⟩
+
+theorem variant_tables : ∀ s, s < 4 → lookup C15.absTagVariant s = some (C15.absStreetVariant.getD s 255) ∧
+    lookup C15.absTagStreet s = some s := by decide
+
+/-- values of `Abstraction`: the enum variant agrees with the street tag of the word -/
+def AbsValid (a : Abs) : Prop := a.bits < 2^64 ∧ lookup C15.absTagVariant (absTag a.bits % 256) = some a.variant
+
+/-- **Abstraction ↔ u64 / i64** for every valid abstraction word. -/
+theorem C15_abs_u64 (a : Abs) (h : AbsValid a) : absOfU64 (absToU64 a) = some a := by
+  unfold absOfU64 absToU64; rw [h.2]; rfl
+theorem C15_abs_i64 (a : Abs) (h : AbsValid a) : absOfI64 (absToI64 a) = some a := by
+  unfold absOfI64 absToI64; rw [ofI64_toI64 _ (by unfold absToU64; exact h.1)]; exact C15_abs_u64 a h
+theorem C15_abs_i64_injective : ∀ a b, AbsValid a → AbsValid b → absToI64 a = absToI64 b → a = b :=
+  inj_of_roundtrip AbsValid absToI64 absOfI64 C15_abs_i64
+/-- whatever `Abstraction::from(u64)` returns is valid -/
+theorem absOfU64_valid (n : Nat) (hn : n < 2^64) (a : Abs) (h : absOfU64 n = some a) : AbsValid a := by
+  unfold absOfU64 at h
+  cases hl : lookup C15.absTagVariant (absTag n % 256) with
+  | none => rw [hl] at h; simp at h
+  | some v => rw [hl] at h; simp at h; subst h; exact ⟨hn, hl⟩
+
+/-- every constructed abstraction (all four streets, every index) is valid, and **its street and
+index are recovered from the code alone** -/
+theorem C15_abs_of (s i : Nat) (hs : s < 4) :
+    AbsValid (absOf s i) ∧ absStreet (absOf s i) = some s ∧ absIndex (absOf s i) = i % 4096 := by
+  obtain ⟨ht, hi, hb⟩ := absOf_fields s i hs
+  have hv := variant_tables s hs
+  refine ⟨⟨hb, ?_⟩, ?_, hi⟩
+  · rw [ht, Nat.mod_eq_of_lt (by omega), hv.1]; rfl
+  · unfold absStreet; rw [ht]; exact hv.2
+theorem C15_abs_of_roundtrip (s i : Nat) (hs : s < 4) :
+    absOfI64 (absToI64 (absOf s i)) = some (absOf s i) ∧
+    (absOfI64 (absToI64 (absOf s i))).bind absStreet = some s :=
+  ⟨C15_abs_i64 _ (C15_abs_of s i hs).1, by rw [C15_abs_i64 _ (C15_abs_of s i hs).1]; exact (C15_abs_of s i hs).2.1⟩
+/-- **Distinct buckets get distinct codes** (all streets, all 12-bit indices; in particular the 542) -/
+theorem C15_abs_of_injective (s i s' i' : Nat) (hs : s < 4) (hs' : s' < 4) (hi : i < 4096) (hi' : i' < 4096)
+    (h : absToU64 (absOf s i) = absToU64 (absOf s' i')) : s = s' ∧ i = i' := by
+  have a := absOf_fields s i hs
+  have b := absOf_fields s' i' hs'
+  unfold absToU64 at h
+  unfold absIndex at a b
+  rw [h] at a
+  exact ⟨a.1.symm.trans b.1, by have := a.2.1.symm.trans b.2.1; omega⟩
+example : absOf 1 5 = ⟨1, 121870505085349893⟩ ∧ absStreet (absOf 1 5) = some 1 ∧ absIndex (absOf 1 5) = 5 := by decide
+/-- the constructor keeps only 12 bits of the index -/
+example : absOf 2 4096 = absOf 2 0 := by decide
+
+/-- **Bucket componentwise**: the three `i64` columns give the bucket back, and the street. -/
+def BucketValid (b : Bucket) : Prop := b.past < 2^64 ∧ AbsValid b.present ∧ b.future < 2^64
+theorem C15_bucket_roundtrip (b : Bucket) (h : BucketValid b) : bucketOfCodes (bucketToCodes b) = some b := by
+  unfold bucketOfCodes bucketToCodes
+  simp only [C15_abs_i64 _ h.2.1, Option.map_some, pathOfI64, pathToI64, ofI64_toI64 _ h.1, ofI64_toI64 _ h.2.2]
+theorem C15_bucket_injective : ∀ a b, BucketValid a → BucketValid b → bucketToCodes a = bucketToCodes b → a = b :=
+  inj_of_roundtrip BucketValid bucketToCodes bucketOfCodes C15_bucket_roundtrip
+theorem C15_bucket_street (p f s i : Nat) (hs : s < 4) :
+    bucketStreetOfCodes (bucketToCodes ⟨p, absOf s i, f⟩) = some s := by
+  unfold bucketStreetOfCodes bucketToCodes
+  exact (C15_abs_of_roundtrip s i hs).2
+
 end RP.C15
